@@ -283,7 +283,7 @@ theorem view_body {n : Nat} {r : Record} (h : WF n r) (hp : padOK r.seqLen r.seq
 /-- ENCODE IS SPEC: the bytes `Writer.Write` produces are `Spec.layout` of the record's semantic reading, the bin
 field being the one the writer computed -/
 theorem encodeRecord_is_layout {n : Nat} {r : Record} (h : WF n r) (hp : padOK r.seqLen r.seq = true) :
-    ∃ bin a, recordBin r = .ok bin ∧ view bin r = some a ∧ encodeRecord r = .ok (Hts.Spec.Bam.layout a) := by
+    ∃ bin a, recordBin r = bin ∧ view bin r = some a ∧ encodeRecord r = .ok (Hts.Spec.Bam.layout a) := by
   obtain ⟨bin, hb, he⟩ := encodeRecord_ok h
   obtain ⟨a, ha, hbody⟩ := view_body h hp bin
   refine ⟨bin, a, hb, ha, ?_⟩
